@@ -19,6 +19,15 @@ from .. import canon, env, refcodec
 from . import common
 from .common import call
 
+def _gmtime(secs):
+    """time.gmtime() computed with plain arithmetic (the C library's gmtime
+    counts leap seconds under a "right/" TZ setting)."""
+    import datetime as _dt
+    import time as _t
+    d = _dt.datetime(1970, 1, 1) + _dt.timedelta(seconds=int(secs))
+    return _t.struct_time(d.timetuple()[:8] + (0,))
+
+
 PROP = 'C15'
 LEVEL = 'exploration'
 RULE = ('cases = (TZ configuration, input) for a shared seeded input list: '
@@ -40,6 +49,8 @@ ZONES = ['UTC', 'America/New_York', 'Europe/London', 'Australia/Sydney',
          'Pacific/Chatham']
 POSIX = ['EST5EDT,M3.2.0,M11.1.0', 'XXX-5:45',
          'AAA-10BBB,M10.1.0,M4.1.0/3']
+# "right/" zones count leap seconds in time_t conversions
+RIGHT = ['right/UTC', 'right/America/New_York']
 MORE = ['Asia/Tokyo', 'Europe/Berlin', 'America/Los_Angeles',
         'America/St_Johns', 'Africa/Casablanca', 'Asia/Tehran',
         'Pacific/Apia', 'America/Caracas', 'Europe/Moscow',
@@ -52,10 +63,19 @@ MORE = ['Asia/Tokyo', 'Europe/Berlin', 'America/Los_Angeles',
 
 
 def shards(tier, seed):
-    confs = ZONES + POSIX if tier == 'quick' else ZONES + POSIX + MORE
+    import os as _os
+    right = [z for z in RIGHT if _os.path.exists('/usr/share/zoneinfo/' + z)]
+    confs = ZONES + POSIX + right if tier == 'quick' \
+        else ZONES + POSIX + right + MORE
     n = 2600 if tier == 'quick' else 60000
     return [{'name': 'tz-' + z.replace('/', '_'), 'tz': z, 'n': n,
              'env': {'TZ': z}} for z in confs]
+
+
+def _at(secs, tz):
+    """The instant `secs` in zone tz, by arithmetic (datetime.fromtimestamp
+    goes through the C library's gmtime, which a "right/" TZ shifts)."""
+    return (refcodec.EPOCH + datetime.timedelta(seconds=secs)).astimezone(tz)
 
 
 def _transitions(zone):
@@ -70,15 +90,15 @@ def _transitions(zone):
     day = 86400
     t = 0
     end = 2145916800        # 2038-01-01
-    prev = datetime.datetime.fromtimestamp(t, z).utcoffset()
+    prev = _at(t, z).utcoffset()
     while t < end:
         nt = t + day
-        cur = datetime.datetime.fromtimestamp(nt, z).utcoffset()
+        cur = _at(nt, z).utcoffset()
         if cur != prev:
             lo, hi = t, nt
             while hi - lo > 1:
                 mid = (lo + hi) // 2
-                if datetime.datetime.fromtimestamp(mid, z).utcoffset() == prev:
+                if _at(mid, z).utcoffset() == prev:
                     lo = mid
                 else:
                     hi = mid
@@ -141,7 +161,7 @@ def build_inputs(seed, n):
         if len(out) % 5 == 0:
             out.append(('tzinfo-without-offset',
                         base.replace(tzinfo=NoOffset())))
-        g = time.gmtime(t)
+        g = _gmtime(t)
         out.append(('struct_time', time.struct_time(
             tuple(g[:8]) + (rnd.choice([-1, 0, 1]),))))
         lt = loc.timetuple()
@@ -150,7 +170,7 @@ def build_inputs(seed, n):
     # non-existent and ambiguous local times, written directly
     for zn, trs in per_zone.items():
         for t in trs[-(4 if n < 5000 else 40):]:
-            loc = datetime.datetime.fromtimestamp(t, zobjs[zn]).replace(
+            loc = _at(t, zobjs[zn]).replace(
                 tzinfo=None)
             for dm in (-90, -30, 0, 30, 90):
                 cand = loc + datetime.timedelta(minutes=dm)
